@@ -107,6 +107,12 @@ def run(ctx):
     # ---- R09.5 axes
     _linear_axis(ctx, prog)
     _gantry(ctx, prog)
+    if ctx.pid in ('C09', 'C03', 'C06'):
+        # the wrappers compose correctly only if the stack is assembled as Tool{Base{robot}} with the caller's transforms:
+        # the constructor clause of C11 is re-checked here
+        from . import C11
+        ctx.rule('R11.3', 'kinematic stack = Tool{Base{OPWKinematics::new_with_constraints(params, constraints), base}, tool}; BaseBody.base_pose from the same base transform; both constructors agree')
+        C11._stack(ctx, ctx.prog)
 
 
 def forward_transformed(ctx, prog, r2, r3):
